@@ -66,6 +66,21 @@ func parseDiag(stderr string) diag {
 	return diag{}
 }
 
+// parseLocEcho reads the first "C18LOC|msg|file|line" line a catch block printed.
+func parseLocEcho(stdout string) diag {
+	for _, l := range strings.Split(strings.ReplaceAll(stdout, "\r\n", "\n"), "\n") {
+		if rest, ok := strings.CutPrefix(l, "C18LOC|"); ok {
+			f := strings.Split(rest, "|")
+			if len(f) == 3 {
+				if n, err := strconv.Atoi(f[2]); err == nil {
+					return diag{Found: true, Msg: f[0], File: f[1], Line: n, Raw: l}
+				}
+			}
+		}
+	}
+	return diag{}
+}
+
 var runCounter atomic.Int64
 
 type runOutcome struct {
@@ -74,6 +89,7 @@ type runOutcome struct {
 	Crash  bool
 	Timed  bool
 	Stderr string
+	Stdout string
 	Exit   int
 }
 
@@ -101,7 +117,7 @@ func runProgram(e *lib.Env, src, mode string, include bool) runOutcome {
 	if include {
 		_ = os.Remove(entry)
 	}
-	o := runOutcome{Path: p, Stderr: r.Stderr, Exit: r.Exit, Timed: r.TimedOut}
+	o := runOutcome{Path: p, Stderr: r.Stderr, Stdout: r.Stdout, Exit: r.Exit, Timed: r.TimedOut}
 	if c, _ := lib.GoCrash(r); c {
 		o.Crash = true
 		return o
@@ -131,7 +147,12 @@ func judge(e *lib.Env, p *program, msg string) (locVerdict, runOutcome, int) {
 		return locWatchdog, o, want
 	case o.Crash:
 		return locCrash, o, want
-	case !o.Diag.Found:
+	}
+	if p.Fault.CatchPrint && !o.Crash && !o.Timed {
+		// the location comes from getFile()/getLine() printed by the program's own catch block
+		o.Diag = parseLocEcho(o.Stdout)
+	}
+	if !o.Diag.Found {
 		return locNoDiag, o, want
 	}
 	if msg != "" && !strings.Contains(o.Diag.Msg, msg) {
